@@ -451,15 +451,32 @@ Definition attr_segs (a : attribute) : list seg :=
     else [SLit (lit " " ++ a_name a ++ lit "=" ++ [34]); SLit (html_escape v ++ [34])]
   end.
 
+(** the value of a class attribute: an expression, or a quoted string that Go reads *)
+Definition quoted_value (c : token) : Prop :=
+  t_typ c = TAttrEscapedValue /\ exists n, go_unquote (t_lit c) = Some n /\ bytes_ok n.
+Definition class_value (c : token) : Prop := t_typ c = TAttrDynamicValue \/ quoted_value c.
+Definition is_dyn_value (c : token) : bool := toktype_eqb (t_typ c) TAttrDynamicValue.
+
+(** ` class="..."` for class shorthands and a quoted class attribute: the names joined with blanks *)
+Definition class_html_names (l : list token) : bytes :=
+  match l with [] => [] | _ => lit " class=" ++ [34] ++ html_escape (join (lit " ") (class_names l)) ++ [34] end.
+
 Definition dyn_elem (d : elem) : Prop :=
   bytes_ok (e_tag d) /\ bytes_ok (e_id d) /\ Forall static_class (e_classes d) /\
   (forall o, e_objref d = Some o -> t_typ o = TObjectRef) /\
-  omap_get (e_attrs d) (lit "class") = None /\ Forall (fun kv => dyn_attr (snd kv)) (e_attrs d).
+  (forall c, omap_get (e_attrs d) (lit "class") = Some c -> class_value (a_origin c)) /\
+  Forall (fun kv => dyn_attr (snd kv)) (e_attrs d).
 
 Definition id_class_html (d : elem) : bytes :=
   match e_id d with [] => [] | i => lit " id=" ++ [34] ++ html_escape i ++ [34] end ++ class_html (e_classes d).
 
-Definition attrs_segs (d : elem) : list seg := List.concat (map (fun kv => attr_segs (snd kv)) (e_attrs d)).
+(** a [class] attribute is not written as an attribute: its value joins the class list *)
+Definition elem_attrs (d : elem) : list (bytes * attribute) :=
+  match omap_get (e_attrs d) (lit "class") with
+  | Some _ => omap_delete (e_attrs d) (lit "class")
+  | None => e_attrs d
+  end.
+Definition attrs_segs (d : elem) : list seg := List.concat (map (fun kv => attr_segs (snd kv)) (elem_attrs d)).
 
 (** the arguments of goht.BuildClassList as the emitter writes them *)
 Definition class_arg_text (c : token) : bytes :=
@@ -481,9 +498,21 @@ Definition id_segs (d : elem) : list seg := match e_id d with [] => [] | _ => [S
 
 (** everything between the tag name and the closing `>` *)
 Definition elem_segs (d : elem) : list seg :=
-  match e_objref d with
-  | None => [SLit (id_class_html d)]
-  | Some o => [SObjId (t_lit o)] ++ id_segs d ++ [SClassList (class_args_text (e_classes d ++ [o]))]
+  match omap_get (e_attrs d) (lit "class") with
+  | None =>
+    match e_objref d with
+    | None => [SLit (id_class_html d)]
+    | Some o => [SObjId (t_lit o)] ++ id_segs d ++ [SClassList (class_args_text (e_classes d ++ [o]))]
+    end
+  | Some c =>
+    (* the value of a dynamic class attribute is the last argument of goht.BuildClassList *)
+    match e_objref d with
+    | None =>
+      if is_dyn_value (a_origin c) then id_segs d ++ [SClassList (class_args_text (e_classes d ++ [a_origin c]))]
+      else (* a quoted value is one more class name in the literal *)
+           [SLit (id_html d ++ class_html_names (e_classes d ++ [a_origin c]))]
+    | Some o => [SObjId (t_lit o)] ++ id_segs d ++ [SClassList (class_args_text ((e_classes d ++ [o]) ++ [a_origin c]))]
+    end
   end ++ attrs_segs d ++ match e_attrs_cmd d with [] => [] | cmd => [SAttrList cmd] end.
 
 (** what may follow `!` on a line: text (written without escaping) and expressions *)
@@ -800,22 +829,51 @@ Proof.
   destruct (chunk_id_ok (i0 :: i) Hid) as [Ri _]. exists true. apply chunk_run; assumption.
 Qed.
 
-(** a class list with an object reference in it goes through goht.BuildClassList *)
-Lemma classlist_run sm ind (l : list token) (o : token) (m : bool) st : t_typ o = TObjectRef -> MS ind m st ->
-  Run ind m st false (render_class sm (l ++ [o]) st) [SClassList (class_args_text (l ++ [o]))].
+(** a class list with an object reference or an expression in it goes through goht.BuildClassList *)
+Definition all_quoted (l : list token) : bool :=
+  forallb (fun c => negb (toktype_eqb (t_typ c) TObjectRef || toktype_eqb (t_typ c) TAttrDynamicValue)) l.
+
+Lemma classlist_run sm ind (l : list token) (m : bool) st : all_quoted l = false -> MS ind m st ->
+  Run ind m st false (render_class sm l st) [SClassList (class_args_text l)].
 Proof.
-  intros Ht H. unfold render_class.
-  destruct (l ++ [o]) as [|c0 cs] eqn:El; [destruct l; discriminate|]. rewrite <- El.
-  rewrite forallb_snoc_false by (rewrite Ht; reflexivity). cbv zeta.
-  destruct (helper_block_run ind m st (fun v => v ++ lit ", __err = goht.BuildClassList(") (write_class_args sm (l ++ [o])) (class_args_text (l ++ [o]))
-              (fun v => lit """ class=\""""+" ++ v ++ lit "+""\""""") (fun v => classlist_code ind v (class_args_text (l ++ [o]))) H
-              (write_class_args_txt sm (l ++ [o]))) as [M T].
+  intros Hq H. unfold render_class. unfold all_quoted in Hq.
+  destruct l as [|c0 cs] eqn:El; [discriminate|]. rewrite <- El in *. rewrite Hq. cbv zeta.
+  destruct (helper_block_run ind m st (fun v => v ++ lit ", __err = goht.BuildClassList(") (write_class_args sm l) (class_args_text l)
+              (fun v => lit """ class=\""""+" ++ v ++ lit "+""\""""") (fun v => classlist_code ind v (class_args_text l)) H
+              (write_class_args_txt sm l)) as [M T].
   { intro v. unfold classlist_code. rewrite <- !app_assoc. reflexivity. }
-  split; [exact M|]. exists ((if m then close_text (Lo ind) else []) ++ classlist_code ind (var_name_of st) (class_args_text (l ++ [o]))).
+  split; [exact M|]. exists ((if m then close_text (Lo ind) else []) ++ classlist_code ind (var_name_of st) (class_args_text l)).
   split; [exact T|].
-  assert (D : denotes ind false false (classlist_code ind (var_name_of st) (class_args_text (l ++ [o]))) [SClassList (class_args_text (l ++ [o]))]).
+  assert (D : denotes ind false false (classlist_code ind (var_name_of st) (class_args_text l)) [SClassList (class_args_text l)]).
   { rewrite <- (app_nil_r (classlist_code _ _ _)). apply d_classlist. constructor. }
   destruct m; [apply d_close; exact D|exact D].
+Qed.
+
+Lemma all_quoted_snoc_false l o : t_typ o = TObjectRef \/ t_typ o = TAttrDynamicValue -> all_quoted (l ++ [o]) = false.
+Proof. intro Ht. unfold all_quoted. apply forallb_snoc_false. destruct Ht as [Ht|Ht]; rewrite Ht; reflexivity. Qed.
+
+Lemma all_quoted_app_false l l' : all_quoted l = false -> all_quoted (l ++ l') = false.
+Proof. unfold all_quoted. intro H. rewrite forallb_app, H. reflexivity. Qed.
+
+(** a class list of shorthands and quoted values is one literal *)
+Lemma quoted_class_facts l : Forall (fun c => static_class c \/ quoted_value c) l ->
+  all_quoted l = true /\ first_unquote_failure l = None /\ Forall bytes_ok (class_names l).
+Proof.
+  induction 1 as [|c l Hc _ (IH1 & IH2 & IH3)]; [repeat split; constructor|].
+  assert (Hc' : exists n, class_static_name c = Some n /\ bytes_ok n /\
+                          negb (toktype_eqb (t_typ c) TObjectRef || toktype_eqb (t_typ c) TAttrDynamicValue) = true).
+  { destruct Hc as [[Ht Hb]|(Ht & n & Hu & Hb)]; unfold class_static_name; rewrite Ht; [exists (t_lit c)|exists n]; repeat split; assumption. }
+  destruct Hc' as (n & Hs & Hb & Hq). unfold all_quoted, class_names in *. cbn [map first_unquote_failure forallb].
+  rewrite Hs, Hq, IH1, IH2. repeat split. constructor; assumption.
+Qed.
+
+Lemma render_class_quoted ind sm l st : Forall (fun c => static_class c \/ quoted_value c) l -> LS (Lo ind) st ->
+  LS (Lo ind) (render_class sm l st) /\ Step st (render_class sm l st) (class_html_names l).
+Proof.
+  intros Hall H. destruct l as [|c l]; [split; [exact H|apply Step_refl]|].
+  destruct (quoted_class_facts _ Hall) as (Hq & Hf & Hn). unfold render_class. unfold all_quoted in Hq. rewrite Hq, Hf.
+  assert (Hok : bytes_ok (join (lit " ") (class_names (c :: l)))) by (apply bytes_ok_join; exact Hn).
+  destruct (chunk_class_ok _ Hok) as [Rc _]. apply (chunk_step (Lo ind) eq_refl); assumption.
 Qed.
 
 Lemma attrlist_run ind (cmd : bytes) (m : bool) st : MS ind m st ->
@@ -847,7 +905,65 @@ Qed.
 Lemma render_attributes_run sm ind d st : dyn_elem d -> MS ind true st ->
   exists m' : bool, Run ind true st m' (render_attributes sm d st) (elem_segs d).
 Proof.
-  intros (Htag & Hid & Hcl & Hobj & Hca & Hat) H. unfold render_attributes, elem_segs. cbv zeta. rewrite Hca.
+  intros (Htag & Hid & Hcl & Hobj & Hca & Hat) H. unfold render_attributes, elem_segs, attrs_segs, elem_attrs. cbv zeta.
+  destruct (omap_get (e_attrs d) (lit "class")) as [c|] eqn:Ec.
+  { (* a class attribute: its value joins the class list, and no attribute of that name is written *)
+    pose proof (Hca c eq_refl) as Hcv.
+    assert (Hat' : Forall (fun kv => dyn_attr (snd kv)) (omap_delete (e_attrs d) (lit "class"))).
+    { unfold omap_delete. apply Forall_forall. intros kv Hin. apply filter_In in Hin. rewrite Forall_forall in Hat. apply Hat. apply Hin. }
+    assert (Hhead : exists (m3 : bool) st3,
+              Run ind true st m3 st3
+                (match e_objref d with
+                 | None => if is_dyn_value (a_origin c) then id_segs d ++ [SClassList (class_args_text (e_classes d ++ [a_origin c]))]
+                           else [SLit (id_html d ++ class_html_names (e_classes d ++ [a_origin c]))]
+                 | Some o => [SObjId (t_lit o)] ++ id_segs d ++ [SClassList (class_args_text ((e_classes d ++ [o]) ++ [a_origin c]))]
+                 end) /\
+              st3 = render_class sm ((match e_objref d with Some o => e_classes d ++ [o] | None => e_classes d end) ++ [a_origin c])
+                      (match e_id d with
+                       | [] => match e_objref d with
+                               | Some o => tw_wri (lit "}" ++ [10]) (tw_wri ([9] ++ write_string_open ++ lit """ id=\""""+" ++ var_name_of st ++ lit "+""\""""); __err != nil { return }" ++ [10])
+                                              (tw_wr (lit "); " ++ var_name_of st ++ lit " != """" {" ++ [10]) (tw_write_add sm (t_lit o) o (tw_wri (lit "if " ++ var_name_of st ++ lit " := goht.ObjectID(") (after_var st)))))
+                               | None => st end
+                       | i => tw_write_string_literal (chunk_id i)
+                                (match e_objref d with
+                                 | Some o => tw_wri (lit "}" ++ [10]) (tw_wri ([9] ++ write_string_open ++ lit """ id=\""""+" ++ var_name_of st ++ lit "+""\""""); __err != nil { return }" ++ [10])
+                                                (tw_wr (lit "); " ++ var_name_of st ++ lit " != """" {" ++ [10]) (tw_write_add sm (t_lit o) o (tw_wri (lit "if " ++ var_name_of st ++ lit " := goht.ObjectID(") (after_var st)))))
+                                 | None => st end)
+                       end)).
+    { destruct (e_objref d) as [o|] eqn:Eo.
+      - pose proof (objid_run sm ind o st H) as R1.
+        match type of R1 with Run _ _ _ _ ?x _ => set (st1 := x) in * end.
+        destruct (id_run ind d false st1 Hid (Run_ms ind R1)) as (m2 & R2).
+        match type of R2 with Run _ _ _ _ ?x _ => set (st2 := x) in * end.
+        pose proof (classlist_run sm ind ((e_classes d ++ [o]) ++ [a_origin c]) m2 st2 (all_quoted_app_false _ _ (all_quoted_snoc_false _ o (or_introl (Hobj o eq_refl)))) (Run_ms ind R2)) as R3.
+        exists false, (render_class sm ((e_classes d ++ [o]) ++ [a_origin c]) st2). split; [|subst st2 st1; destruct (e_id d); reflexivity].
+        eapply Run_trans; [exact R1|]. eapply Run_trans; [exact R2|exact R3].
+      - destruct Hcv as [Hdv|Hqv].
+        + unfold is_dyn_value. rewrite Hdv. cbn [toktype_eqb].
+          destruct (id_run ind d true st Hid H) as (m2 & R2).
+          match type of R2 with Run _ _ _ _ ?x _ => set (st2 := x) in * end.
+          pose proof (classlist_run sm ind (e_classes d ++ [a_origin c]) m2 st2 (all_quoted_snoc_false _ _ (or_intror Hdv)) (Run_ms ind R2)) as R3.
+          exists false, (render_class sm (e_classes d ++ [a_origin c]) st2). split; [|subst st2; destruct (e_id d); reflexivity].
+          eapply Run_trans; [exact R2|exact R3].
+        + unfold is_dyn_value. rewrite (proj1 Hqv). cbn [toktype_eqb].
+          set (st2 := match e_id d with [] => st | i => tw_write_string_literal (chunk_id i) st end).
+          assert (H2 : LS (Lo ind) st2 /\ Step st st2 (id_html d)).
+          { subst st2. unfold id_html. destruct (e_id d) as [|i0 i] eqn:Ei; [split; [exact H|apply Step_refl]|].
+            destruct (chunk_id_ok (i0 :: i) Hid) as [Ri _]. apply (chunk_step (Lo ind) eq_refl); assumption. }
+          destruct H2 as [L2 S2].
+          assert (Hall : Forall (fun c0 => static_class c0 \/ quoted_value c0) (e_classes d ++ [a_origin c])).
+          { apply Forall_app. split; [eapply Forall_impl; [|exact Hcl]; intros a Ha; left; exact Ha|constructor; [right; exact Hqv|constructor]]. }
+          destruct (render_class_quoted ind sm (e_classes d ++ [a_origin c]) st2 Hall L2) as [L3 S3].
+          pose proof (step_run ind st _ _ H L3 (Step_trans _ _ _ _ _ S2 S3)) as R3.
+          exists true, (render_class sm (e_classes d ++ [a_origin c]) st2). split; [exact R3|subst st2; destruct (e_id d); reflexivity]. }
+    destruct Hhead as (m3 & st3 & R3 & E3). rewrite <- E3. clear E3.
+    destruct (render_attrs_run sm ind (omap_delete (e_attrs d) (lit "class")) m3 st3 Hat' (Run_ms ind R3)) as (m4 & R4).
+    set (st4 := render_attrs sm (omap_delete (e_attrs d) (lit "class")) st3) in *.
+    destruct (e_attrs_cmd d) as [|c0 cmd] eqn:Ecmd.
+    - exists m4. rewrite app_nil_r. eapply Run_trans; [exact R3|exact R4].
+    - pose proof (attrlist_run ind (c0 :: cmd) m4 st4 (Run_ms ind R4)) as R5. cbv zeta in R5.
+      exists false. match goal with |- Run _ _ _ _ _ (?a ++ ?b ++ ?c) => rewrite (app_assoc a b c) end.
+      eapply Run_trans; [eapply Run_trans; [exact R3|exact R4]|exact R5]. }
   assert (Hhead : exists (m3 : bool) st3,
             Run ind true st m3 st3
               (match e_objref d with
@@ -871,7 +987,7 @@ Proof.
       match type of R1 with Run _ _ _ _ ?x _ => set (st1 := x) in * end.
       destruct (id_run ind d false st1 Hid (Run_ms ind R1)) as (m2 & R2).
       match type of R2 with Run _ _ _ _ ?x _ => set (st2 := x) in * end.
-      pose proof (classlist_run sm ind (e_classes d) o m2 st2 (Hobj o eq_refl) (Run_ms ind R2)) as R3.
+      pose proof (classlist_run sm ind (e_classes d ++ [o]) m2 st2 (all_quoted_snoc_false _ o (or_introl (Hobj o eq_refl))) (Run_ms ind R2)) as R3.
       exists false, (render_class sm (e_classes d ++ [o]) st2). split; [|subst st2 st1; destruct (e_id d); reflexivity].
       eapply Run_trans; [exact R1|]. eapply Run_trans; [exact R2|exact R3].
     - set (st2 := match e_id d with [] => st | i => tw_write_string_literal (chunk_id i) st end).
@@ -885,7 +1001,7 @@ Proof.
   destruct Hhead as (m3 & st3 & R3 & E3). rewrite <- E3. clear E3.
   destruct (render_attrs_run sm ind (e_attrs d) m3 st3 Hat (Run_ms ind R3)) as (m4 & R4).
   set (st4 := render_attrs sm (e_attrs d) st3) in *.
-  destruct (e_attrs_cmd d) as [|c0 cmd] eqn:Ec.
+  destruct (e_attrs_cmd d) as [|c0 cmd] eqn:Ecm.
   - exists m4. rewrite app_nil_r. eapply Run_trans; [exact R3|exact R4].
   - pose proof (attrlist_run ind (c0 :: cmd) m4 st4 (Run_ms ind R4)) as R5. cbv zeta in R5.
     exists false. match goal with |- Run _ _ _ _ _ (?a ++ ?b ++ ?c) => rewrite (app_assoc a b c) end.
@@ -1365,9 +1481,9 @@ Proof.
     { unfold html_list. clear - IH Hch. induction IH as [|c r Hc _ IHr]; [reflexivity|].
       inversion Hch; subst. cbn [segs_list map List.concat]. rewrite (static_not_block c) by assumption. cbn [andb].
       rewrite eval_app, Hc, IHr by assumption. reflexivity. }
-    destruct Hd as (_ & _ & _ & Hobj & _ & Hat & Hcmd & Hni & Hno).
-    rewrite Hni, Hno. rewrite !app_nil_l. unfold elem_segs. rewrite Hobj, Hcmd, app_nil_r.
-    rewrite !eval_app. unfold attrs_segs. rewrite (eval_attrs_static rho _ Hat). unfold elem_open_html, id_class_html.
+    destruct Hd as (_ & _ & _ & Hobj & Hcn & Hat & Hcmd & Hni & Hno).
+    rewrite Hni, Hno. rewrite !app_nil_l. unfold elem_segs. rewrite Hcn, Hobj, Hcmd, app_nil_r.
+    rewrite !eval_app. unfold attrs_segs, elem_attrs. rewrite Hcn, (eval_attrs_static rho _ Hat). unfold elem_open_html, id_class_html.
     destruct (e_selfclosing d).
     + cbn. rewrite !app_nil_r, <- !app_assoc. reflexivity.
     + rewrite eval_app. destruct (only_newline ch); [|rewrite Hk]; cbn; rewrite ?app_nil_r, <- ?app_assoc; reflexivity.
